@@ -331,6 +331,7 @@ void reb_simulation_remove_all_particles(struct reb_simulation* const r){
 	r->N_var 	= 0;
 	free(r->particles);
 	r->particles 	= NULL;
+	reb_tree_delete(r); // tree cells hold indices into the particle array
 }
 
 int reb_simulation_remove_particle(struct reb_simulation* const r, int index, int keep_sorted){
